@@ -74,6 +74,23 @@ def generate(rng, tier):
             else: x, y = x + rng.randint(-10, 10), y + rng.randint(1, 10)
             pts.append((x, y))
         cases.append({"kind": "s", "pts": pts, "tol": tol, "family": "far-from-origin/fine-tolerance"})
+    # finely sampled corners and arcs: runs of segments far shorter than the tolerance (1/8 .. 1/32 of it) that bend away from the chord by
+    # more than the tolerance (a staple, an L, a small circle, a spiral): short steps add up
+    for _ in range(max(10, n // 25)):
+        tol = F(rng.choice([1, 2, 1, 4])); h = tol / rng.choice([8, 8, 16, 32]); shape = rng.choice(["staple", "ell", "circle", "zigzag-drift"])
+        ox, oy = F(rng.randint(-30, 30)), F(rng.randint(-30, 30)); k = int(2 * tol / h); pts = [(ox, oy)]
+        if shape == "staple":
+            pts += [(ox, oy + h * i) for i in range(1, k + 1)] + [(ox + h * i, oy + h * k) for i in range(1, k + 1)] + [(ox + h * k, oy + h * (k - i)) for i in range(1, k + 1)]
+        elif shape == "ell":
+            pts += [(ox + h * i, oy) for i in range(1, 2 * k)] + [(ox + h * (2 * k - 1), oy + h * i) for i in range(1, 2 * k)]
+        elif shape == "circle":
+            import math
+            m = rng.choice([32, 64]); r = 2 * tol
+            pts = [(ox + F(round(float(r) * math.cos(2 * math.pi * i / m) * 64), 64), oy + F(round(float(r) * math.sin(2 * math.pi * i / m) * 64), 64)) for i in range(m + 1)]
+        else:
+            pts += [(ox + h * i, oy + (h / 2 if i % 2 else 0) + h * i * i / (4 * k)) for i in range(1, 3 * k)]
+        pts.append((pts[-1][0] + 10 * tol, pts[-1][1]))
+        cases.append({"kind": "s", "pts": pts, "tol": tol, "family": "finely-sampled/" + shape})
     # long removable runs (over-sampled strokes: 64..300 vertices within tolerance of one segment) ending in a corner, a zig-zag or a hook:
     # whatever window-growing strategy the code uses, every deleted vertex must be within tolerance of the segment that survives
     for _ in range(max(6, n // 40)):
